@@ -4,6 +4,7 @@ oracle (the residual must vanish where the network satisfies the equation)."""
 import math, random
 from common import jx, cq, cnat, cbool, clist, write_cases, default_matches_known
 from poly import mk, prand, pdiff, peval, pmul, padd
+from lossbuild import poly_jax
 matches_known = default_matches_known
 EQS = ["burgers", "fisher", "ou", "glv", "mass", "ns"]
 TMAX = [1.0, 2.0, 0.5, 10.0]
@@ -20,6 +21,8 @@ def gen_case(rng, eq):
     elif eq == "fisher":
         d = rng.randint(1, 3)
         c.update(d=d, polys=[prand(rng, d + 1, 3, 4) or {(0,) * (d + 1): 1}], pt=[dy(rng) for _ in range(d + 1)], nus=[dy(rng), dy(rng), dy(rng)])
+        if rng.random() < 0.4:        # a space-dependent growth rate r(x) = r * profile(x), declared through eq_params_heterogeneity
+            c["het"] = prand(rng, d, 1, 2) or {(0,) * d: 2}
     elif eq == "ou":
         c.update(d=2, polys=[prand(rng, 3, 3, 4) or {(0, 0, 0): 1}], pt=[dy(rng) for _ in range(3)],
                  nus=[dy(rng) for _ in range(6)], vector_alpha=rng.random() < 0.5)
@@ -54,12 +57,20 @@ def evaluate(c):
         if eq == "burgers":
             L = jinns.loss.BurgerEquation(Tmax=c["tmax"]); eqp = {"nu": A(nus[0])}
         elif eq == "fisher":
-            L = jinns.loss.FisherKPP(Tmax=c["tmax"]); eqp = {"D": A(nus[0]), "r": A(nus[1]), "g": A(nus[2])}
+            het = None
+            if c.get("het"):
+                prof = c["het"]
+                het = {"D": None, "r": (lambda t, x, u, params: params.eq_params["r"] * poly_jax(prof, x)), "g": None}
+            L = jinns.loss.FisherKPP(Tmax=c["tmax"], eq_params_heterogeneity=het); eqp = {"D": A(nus[0]), "r": A(nus[1]), "g": A(nus[2])}
         else:
             L = jinns.loss.OU_FPENonStatioLoss2D(Tmax=c["tmax"])
             eqp = {"alpha": jnp.array(nus[0:2]) if c["vector_alpha"] else A(nus[0]), "mu": jnp.array(nus[2:4]), "sigma": jnp.array(nus[4:6])}
         P = Params(nn_params=u.init_params(), eq_params=eqp)
-        return [float(v) for v in np.asarray(L.evaluate(t, x, u, P)).ravel()]
+        first = [float(v) for v in np.asarray(L.evaluate(t, x, u, P)).ravel()]
+        second = [float(v) for v in np.asarray(L.evaluate(t, x, u, P)).ravel()]       # the same objects again (eagerly)
+        if first != second:
+            c["_repeat_differs"] = (first, second)
+        return second
     if eq == "glv":
         m = len(c["polys"])
         nm = c.get("names") or [str(k) for k in range(m)]
@@ -86,6 +97,9 @@ def evaluate(c):
 
 
 def case_term(cid, c, obs):
+    if c.get("het"):          # inside the equation the growth rate is r * profile(x) at the evaluation point
+        from poly import peval
+        c = dict(c, nus=[c["nus"][0], c["nus"][1] * peval(c["het"], c["pt"][1:]), c["nus"][2]])
     polys = clist(c["polys"], lambda p: clist(sorted(p.items()), lambda m: f"({cq(m[1])}, {clist(m[0], cnat)})"))
     return (f"mkcase {cnat(cid)} {cnat(EQS.index(c['eq']))} {cnat(c['d'])} {cq(c['tmax'])} {polys} {clist(c['pt'], cq)} "
             f"{clist(c['nus'], cq)} {clist(obs, cq)}")
@@ -116,11 +130,18 @@ def manufactured(rng, n):
 
 
 def jsonable(c):
-    return dict(c, polys=[[[list(k), v] for k, v in sorted(p.items())] for p in c["polys"]])
+    out = dict(c, polys=[[[list(k), v] for k, v in sorted(p.items())] for p in c["polys"]])
+    if c.get("het"):
+        out["het"] = [[list(k), v] for k, v in sorted(c["het"].items())]
+    out.pop("_repeat_differs", None)
+    return out
 
 
 def unjson(c):
-    return dict(c, polys=[{tuple(k): v for k, v in p} for p in c["polys"]])
+    out = dict(c, polys=[{tuple(k): v for k, v in p} for p in c["polys"]])
+    if c.get("het"):
+        out["het"] = {tuple(k): v for k, v in c["het"]}
+    return out
 
 
 def generate(tier, seed, casedir, variant):
@@ -137,6 +158,9 @@ def generate(tier, seed, casedir, variant):
             except Exception as ex:
                 viol.append({"detail": f"{eq}: evaluate raised {type(ex).__name__}: {str(ex)[:200]}", "case": jsonable(c)})
                 continue
+            if c.get("_repeat_differs"):
+                a, b = c.pop("_repeat_differs")
+                viol.append({"detail": f"{eq}: the residual is {a} on the first evaluation and {b} on the second one with the same arguments", "case": jsonable(c)})
             cases.append(case_term(cid, c, obs)); meta[cid] = jsonable(c)
             dist[eq] = dist.get(eq, 0) + 1
             dist[f"tmax={c['tmax']}"] = dist.get(f"tmax={c['tmax']}", 0) + 1
